@@ -8,7 +8,7 @@ import numpy as np
 from vlib import *
 
 RULE = ('T in 1..4 (quick) / 1..8 (thorough); h, p, c, K, gamma, demand mean/sd each drawn as scalar, length-T or length-(T+1) '
-        'list, stationary or period-varying; K = 0 in ~35% of the cases; gamma in {1, 0.9, 0.95}; terminal costs zero / equal / '
+        'list, stationary or period-varying; K = 0 in ~35% of the cases; K lists that jump up in a later period with cheap holding in ~12%; gamma in {1, 0.9, 0.95}; terminal costs zero / equal / '
         'random; demand = normal mean 3..12, sd 1..3, or DemandSource objects of type N, P, UD, CD, UC, NB (one for all periods or '
         'one per period, incl. lists whose consecutive periods have bit-identical mean and sd but different distributions: X next to '
         'the normal with the moments of X, mirror-image custom-discrete pmfs); initial inventory level integer / fractional / occasionally outside the grid; modes: optimisation on the '
@@ -83,7 +83,7 @@ def gen_matched_pair(rng, small=False):
 
 
 def gen_case(rng, tmax, malformed_rate=0.08):
-    T = rng.randint(1, tmax) if rng.random() < 0.93 else 1
+    T = 1 if (rng.random() < 0.15 or tmax < 2) else rng.randint(2, tmax)
     def arg(draw, stationary_p=0.5):
         shape = rng.choice(['scalar', 'T', 'T1'])
         if shape == 'scalar': return ['scalar', draw()]
@@ -99,6 +99,14 @@ def gen_case(rng, tmax, malformed_rate=0.08):
     c = dict(T=T, h=arg(lambda: _r(rng, 0.5, 1) if bigK else _r(rng, 0.25, 3)), p=arg(lambda: _r(rng, 2, 20)),
              c=(['scalar', 0.0] if rng.random() < 0.25 else arg(lambda: _r(rng, 0, 3))), K=arg(Kd, 0.6),
              gamma=arg(lambda: rng.choice([1.0, 0.9, 0.95]), 0.7), malformed=None, d_spread=4, s_spread=5)
+    if T >= 2 and rng.random() < 0.18:
+        # fixed cost that jumps up in a later period with cheap holding: c_t y + H_t(y) is not K_t-convex and has a second,
+        # deeper dip at a large y (order now for several periods)
+        while True:
+            Kl = [((0.0 if rng.random() < 0.7 else _r(rng, 0, 1)) if rng.random() < 0.5 else _r(rng, 10, 35)) for _ in range(T)]
+            if any(Kl[i] <= 1 and Kl[i + 1] >= 10 for i in range(T - 1)): break
+        c['K'] = ['list', ([0.0] + Kl) if rng.random() < 0.5 else Kl]
+        c['h'] = ['scalar', _r(rng, 0.75, 1.5)]; c['p'] = ['scalar', _r(rng, 12, 20)]; c['c'] = ['scalar', _r(rng, 0, 0.75)]; c['K_jump'] = True
     tm = rng.random()
     if tm < 0.3: c['hT'], c['pT'] = 0.0, 0.0
     elif tm < 0.6: c['hT'], c['pT'] = _r(rng, 0.25, 3), _r(rng, 2, 20)
@@ -119,6 +127,9 @@ def gen_case(rng, tmax, malformed_rate=0.08):
                 if any(l[i] != l[i + 1] for i in range(T - 1)): break
             c['matched'] = True
         c['demand'] = dict(kind='source', sources=['list', ([None] + l) if shape == 'T1' else l])
+    if c.get('K_jump') and rng.random() < 0.75:
+        c.pop('matched', None)
+        c['demand'] = dict(kind='normal', mean=arg(lambda: _r(rng, 6, 8, 2) if small else _r(rng, 8, 12, 2), 0.7), sd=['scalar', rng.choice([1.0, 1.0, 1.25, 1.5])])
     if rng.random() < 0.15: c['d_spread'] = rng.choice([3, 5])
     if rng.random() < 0.15: c['s_spread'] = rng.choice([3, 4, 6])
     if small: c['d_spread'] = 3; c['s_spread'] = rng.choice([3, 4])
@@ -133,7 +144,8 @@ def gen_case(rng, tmax, malformed_rate=0.08):
                  gamma=sc(rng.choice([1.0, 0.9, 0.95])), mode='opt', d_spread=3 if small else 4, s_spread=4 if small else 5)
         c['demand'] = dict(kind='normal', mean=sc(_r(rng, 6, 8, 2) if small else _r(rng, 8, 12, 2)), sd=sc(_r(rng, 1, 1.5 if small else 2, 2)))
         if norm_list(c['gamma'], T)[T] != 1.0: c['hT'], c['pT'] = 0.0, 0.0
-        c['myopic_friendly'] = True; c.pop('matched', None)
+        c['myopic_friendly'] = True; c.pop('matched', None); c.pop('K_jump', None)
+    if c.get('K_jump') and c['mode'] == 'eval': c['mode'] = rng.choice(['opt', 'optgrid'])
     if c['mode'] != 'opt':
         lo = -rng.randint(8, 20 if small else 30); c['xr'] = [lo, rng.randint(25, 35 if small else 60)]
         if c['mode'] == 'optgrid' and rng.random() < 0.7: c['xr'][1] = rng.randint(4, 14)     # too small: forces the range doubling
@@ -600,6 +612,7 @@ def explore(chk, n, tmax, do_model=True, malformed_rate=0.08):
             chk.count('shape_%s=%s' % (k, c[k][0] if c[k][0] == 'scalar' else ('T1' if len(c[k][1]) == T + 1 else 'T')))
         chk.count('K=0' if all(v == 0 for v in norm_list(c['K'], T)[1:]) else 'K>0')
         if c.get('matched'): chk.count('demand_list=moment-matched-neighbours')
+        if c.get('K_jump'): chk.count('K=jump-up-with-cheap-holding')
         if not r['ok'] and r['kind'] == 'IndexError' and c['IL'] != 0.0:
             # initial_inventory_level outside the grid: cost_matrix[1, int(IL) - x_min] does not exist; the property speaks about the grid only
             c0 = dict(c, IL=0.0); r0 = call_impl(impl_kwargs(c0))
@@ -636,7 +649,7 @@ def run(chk):
                    'x_range is a contiguous ascending integer range and user oul_matrix entries are integers (what the function itself returns)']
     chk.extra['near_tie_skipped'] = 0
     chk.proof()
-    n, tmax = (44, 4) if chk.tier == 'quick' else (240, 8)
+    n, tmax = (40, 4) if chk.tier == 'quick' else (240, 8)
     explore(chk, n, tmax)
     if (chk.broken or chk.mismatches) and not chk.fails:
         explore(chk, 6 * n if chk.tier == 'quick' else n, tmax, do_model=False, malformed_rate=0.03)
